@@ -45,6 +45,9 @@ type Case struct {
 	// RegisterField call is made (a warm-up whose response is not looked at) - the bindings the
 	// application registers arrive after the root has already been used.
 	LateRegister bool `json:"late_register,omitempty"`
+	// KeepParsed (with LateRegister): the request is parsed once; that parsed request is what is
+	// resolved before the registrations and again after them
+	KeepParsed bool `json:"keep_parsed,omitempty"`
 	// DepthAfter (non-zero): ggql.MaxResolveDepth is set to this once the root exists (an application
 	// that sets up a second root with another limit, say); far above what any generated request needs
 	DepthAfter int `json:"depth_after,omitempty"`
@@ -112,6 +115,7 @@ type Call struct {
 
 // World is a ggql root wired to fixtures serving the case's graph.
 type World struct {
+	kept *ggql.Executable // the parsed request (KeepParsed)
 	hiddenHandedOut int64
 	C               *Case
 	Root            *ggql.Root
@@ -695,7 +699,21 @@ func NewWorld(c *Case) (*World, error) {
 	}
 	if c.Universe {
 		if c.LateRegister {
-			w.Resolve()
+			if c.KeepParsed && len(c.PrimeVars) == 0 {
+				text := c.Text
+				if text == "" {
+					text = c.Doc.Render(c.Layout).Text
+				}
+				func() {
+					defer func() { _ = recover() }()
+					if exe, err := w.Root.ParseExecutableString(text); err == nil {
+						w.kept = exe
+						_, _ = w.Root.ResolveExecutable(exe, c.Op, c.GoVars())
+					}
+				}()
+			} else {
+				w.Resolve()
+			}
 			w.ResetCalls()
 		}
 		for _, tn := range c.Register {
@@ -760,6 +778,16 @@ func (w *World) Resolve() (res map[string]interface{}, text string, panicked int
 	}
 	if len(w.C.PrimeVars) > 0 {
 		res = ResolveReused(w.Root, text, w.C.Op, kvGo(w.C.PrimeVars), w.C.GoVars(), w.ResetCalls)
+		return
+	}
+	if w.kept != nil {
+		var err error
+		if res, err = w.Root.ResolveExecutable(w.kept, w.C.Op, w.C.GoVars()); res == nil {
+			res = map[string]interface{}{"data": nil}
+		}
+		if err != nil {
+			res["errors"] = ggql.FormErrorsResult(err)
+		}
 		return
 	}
 	res = w.Root.ResolveString(text, w.C.Op, w.C.GoVars())
